@@ -20,10 +20,13 @@ type Events struct {
 	F2IRange    int // float -> int conversion of an out-of-range value
 	F2INaN      int
 	ShiftWide   int // shift amount >= 32 at run time
+	NotRepresentable int // abstract value converted to a concrete type that cannot hold it (shader-creation error)
+	AbsOverflow int // abstract-int arithmetic overflowed 64 bits
 	ClampInv    int // integer clamp with low > high (WGSL: min(max(e,low),high))
 	BitsClamp   int // extractBits / insertBits with offset + count > 32 (WGSL clamps)
 	IntOverflow int // i32/u32 + - * << whose mathematical result does not fit (matters for const-expressions only)
 	UndefBuiltin int // builtin called outside the domain where WGSL defines the result
+	Imprecise   int // float operation whose WGSL accuracy bound is so loose here that any comparison would be unsound
 	Loads       int // loads from storage / uniform buffers
 	Stores      int // stores into read_write storage buffers
 	Ops         map[string]int
@@ -43,6 +46,8 @@ func (e *Events) OutOfDomain() string {
 		return "oob"
 	case e.UndefBuiltin > 0:
 		return "undef-builtin"
+	case e.Imprecise > 0:
+		return "imprecise-float"
 	}
 	return ""
 }
@@ -154,7 +159,7 @@ func Run(cfg Config) (res *Result, err error) {
 		case wgen.VConst:
 			m.fr = &frame{vars: map[*wgen.Var]*Value{}}
 			v := m.eval(g.Init)
-			v = convertTo(v, g.T)
+			v = m.convertTo(v, g.T)
 			m.globals[g] = &v
 		case wgen.VOverride:
 			if ov, ok := cfg.Overrides[g]; ok {
@@ -162,7 +167,7 @@ func Run(cfg Config) (res *Result, err error) {
 				m.globals[g] = &v
 			} else if g.Init != nil {
 				m.fr = &frame{vars: map[*wgen.Var]*Value{}}
-				v := convertTo(m.eval(g.Init), g.T)
+				v := m.convertTo(m.eval(g.Init), g.T)
 				m.globals[g] = &v
 			} else {
 				return nil, fmt.Errorf("wref: override %s has no value", g.Name)
@@ -220,7 +225,7 @@ func Run(cfg Config) (res *Result, err error) {
 						if g.Kind == wgen.VPrivate {
 							v := Zero(g.T, 0)
 							if g.Init != nil {
-								v = convertTo(m.eval(g.Init), g.T)
+								v = m.convertTo(m.eval(g.Init), g.T)
 							}
 							iv.private[g] = &v
 						}
@@ -307,7 +312,7 @@ func (m *machine) exec(s wgen.Stmt) ctl {
 		var val Value
 		if v.Init != nil {
 			val = m.eval(v.Init)
-			val = convertTo(val, v.T)
+			val = m.convertTo(val, v.T)
 		} else {
 			val = Zero(v.T, 0)
 		}
@@ -320,7 +325,7 @@ func (m *machine) exec(s wgen.Stmt) ctl {
 		}
 		ref := m.ref(x.L)
 		if x.Op == "" {
-			val := convertTo(m.eval(x.R), x.L.Type())
+			val := m.convertTo(m.eval(x.R), x.L.Type())
 			m.store(ref, val, x.L)
 		} else {
 			cur := ref.load()
@@ -359,7 +364,7 @@ func (m *machine) exec(s wgen.Stmt) ctl {
 					def = c
 					continue
 				}
-				cv := convertTo(m.eval(e), sel.T)
+				cv := m.convertTo(m.eval(e), sel.T)
 				if cv.B == sel.B && chosen == nil {
 					chosen = c
 				}
@@ -587,5 +592,83 @@ func ConstOK(e wgen.Expr) (ok bool) {
 	m.eval(e)
 	ev := m.ev
 	return ev.NonFinite == 0 && ev.Subnormal == 0 && ev.DivZero == 0 && ev.DivOverflow == 0 && ev.NegOverflow == 0 &&
-		ev.F2IRange == 0 && ev.F2INaN == 0 && ev.ShiftWide == 0 && ev.UndefBuiltin == 0 && ev.BitsClamp == 0 && ev.IntOverflow == 0 && ev.OOB == 0 && ev.FuzzyUse == 0
+		ev.F2IRange == 0 && ev.F2INaN == 0 && ev.ShiftWide == 0 && ev.UndefBuiltin == 0 && ev.Imprecise == 0 && ev.BitsClamp == 0 && ev.ClampInv == 0 && ev.IntOverflow == 0 && ev.OOB == 0 && ev.FuzzyUse == 0
+}
+
+// ConstClass classifies a constant expression.
+type ConstClass int
+
+// Constant-expression classes.
+const (
+	ConstValue       ConstClass = iota // WGSL determines the value
+	ConstMustReject                    // WGSL makes the expression a shader-creation error of a class the property names
+	ConstUnspecified                   // outside what the check judges (concrete overflow, over-wide shift, non-finite float …)
+)
+
+// ConstEval evaluates a constant expression with WGSL's const-evaluation
+// rules (abstract integers in 64 bits, abstract floats in binary64) and
+// converts the result to dst (nil: keep / concretise by default rules).
+// decls are module-scope constants the expression may refer to.
+func ConstEval(e wgen.Expr, dst *wgen.Type, decls []*wgen.Var) (v Value, class ConstClass, why string) {
+	m := &machine{ev: &Events{}, limit: 200000, globals: map[*wgen.Var]*Value{}, private: map[*wgen.Var]*Value{}, constMode: true}
+	m.fr = &frame{vars: map[*wgen.Var]*Value{}}
+	defer func() {
+		if r := recover(); r != nil {
+			if ep, ok := r.(evalPanic); ok {
+				class, why = ConstUnspecified, ep.err.Error()
+				return
+			}
+			panic(r)
+		}
+	}()
+	for _, d := range decls {
+		dv := m.eval(d.Init)
+		if !d.NoType {
+			dv = m.convertTo(dv, d.T)
+		}
+		cell := dv
+		m.globals[d] = &cell
+	}
+	v = m.eval(e)
+	if dst != nil {
+		v = m.convertTo(v, dst)
+	} else {
+		v = m.concretizeDefault(v)
+	}
+	ev := m.ev
+	switch {
+	case ev.DivZero > 0:
+		return v, ConstMustReject, "integer division by zero"
+	case ev.NotRepresentable > 0:
+		return v, ConstMustReject, "value not representable in its type"
+	case ev.AbsOverflow > 0, ev.IntOverflow > 0, ev.DivOverflow > 0, ev.NegOverflow > 0, ev.ShiftWide > 0, ev.NonFinite > 0, ev.Subnormal > 0,
+		ev.F2IRange > 0, ev.F2INaN > 0, ev.UndefBuiltin > 0, ev.Imprecise > 0, ev.OOB > 0, ev.FuzzyUse > 0, ev.BitsClamp > 0, ev.ClampInv > 0:
+		return v, ConstUnspecified, "outside the judged domain"
+	}
+	return v, ConstValue, ""
+}
+
+// concretizeDefault applies WGSL's default concretisation (abstract-int ->
+// i32, abstract-float -> f32) to a value.
+func (m *machine) concretizeDefault(v Value) Value {
+	if v.T == nil {
+		return v
+	}
+	switch v.T.K {
+	case wgen.TScalar:
+		switch v.T.S {
+		case wgen.AbsInt:
+			return m.convertTo(v, wgen.TI32)
+		case wgen.AbsFloat:
+			return m.convertTo(v, wgen.TF32)
+		}
+	case wgen.TVec:
+		if v.T.S == wgen.AbsInt {
+			return m.convertTo(v, wgen.Vec(v.T.N, wgen.I32))
+		}
+		if v.T.S == wgen.AbsFloat {
+			return m.convertTo(v, wgen.Vec(v.T.N, wgen.F32))
+		}
+	}
+	return v
 }
